@@ -61,4 +61,9 @@ CHECKS = {
         technique='brute-force dominance definition vs every Pareto routine: exhaustive small point lists + Hypothesis tie-heavy multisets; served histories and in-RAM queries vs the same definition',
         text='All 7 502 ordered point lists with n<=4, d<=2 over a 3-value grid are enumerated exhaustively against the naive, divide-and-conquer (thresholds 1,2,3,5,1e4), JAX (num_shards 1,2,3,10,50, rank) routines and nsga2._pareto_rank; Hypothesis adds tie-heavy multisets (n<=40, d<=4, +-inf, -0.0). Service histories on RAM and SQL (mixed goals, safety metric, succeeded / infeasible / active / requested / stopping / deleted trials, missing, extra, NaN and infinite metrics) compare clients.Study.optimal_trials() with the definition after every step; InRamPolicySupporter.GetBestTrials is checked for every count incl. None and for side effects.',
         note='trusts harness/c11_ref.py (plain-float brute force), float32-exact inputs for the JAX and in-RAM routines, recursive_threshold>=1 and num_shards>=1 as preconditions'),
+    'C18': dict(
+        category=EXPL,
+        technique='Hypothesis-generated label arrays x warper pipelines/components vs order / finiteness / no-mutation / round-trip oracle',
+        text='Label arrays (length 1..60, magnitudes 1e-30..1e30, engineered duplicates and constants, outliers up to 1e80, NaN and -inf in 0-90 percent of positions, re-use of one warper object) are pushed through create_default_warper and create_warp_outliers_warper in every flag combination and through each component alone (on the inputs its docstring admits). Oracle independent of the implementation: same shape, finite output, input arrays unchanged (warp and unwarp), infeasible entries no higher than the worst feasible one, the default pipeline preserves ranking strictly (equal stay equal, distinct stay distinct, up to the stated float resolution), no warper reverses two observed values, documented shortcuts for constant / all-infeasible input, unwarp(warp(y)) returns y.',
+        note='float-resolution allowances are listed in props/c18.py ASSUMPTIONS; float64 labels only; unwarp checked at warped observed values'),
 }
